@@ -1,0 +1,1 @@
+//! Verification doors: pipe (cfg(trusttunnel_verif) only)
